@@ -114,8 +114,12 @@ SemOf(seq) ==
     LET n == Len(seq)  P == StateAfter(seq, n)  o == seq[n].o  cls == seq[n].cls IN
     [sigA |-> ~o.da, sigK |-> ~o.dk, callA |-> ~P.ad, callK |-> ~P.kd, site |-> P.site,
      key |-> IF P.key = "call" THEN "call-" \o KeyExprOf(cls) ELSE P.key,
-     cls |-> cls, collect |-> "bound"]
+     cls |-> cls, collect |-> "bound", fb |-> "faithful"]
 SemOfMode(seq, mode) == [SemOf(seq) EXCEPT !.collect = mode]
+\* round 4: fb is the dispatch-path mode of C05_MemoImpl!HandlerArgs (the rewritten class
+\* reaches handlers through CachedMapper.__call__ or the inlined dispatch; both leave the
+\* class-hierarchy search to rec_fallback)
+SemOfModes(seq, mode, fb) == [SemOf(seq) EXCEPT !.collect = mode, !.fb = fb]
 
 EffArgs(sem, a) == Args(IF sem.callA THEN a.pos ELSE << >>, IF sem.callK THEN a.kw ELSE << >>)
 SigFits(sem, a) == (sem.sigA \/ Len(a.pos) = 0) /\ (sem.sigK \/ Len(a.kw) = 0)
@@ -137,8 +141,9 @@ TopKey(sem, e, a) ==
 
 RECURSIVE OSite(_, _, _, _, _, _), OHandler(_, _, _, _, _), OFull(_, _, _, _, _)
 \* st = [tab, evs, err]; every operator returns [tab, evs, r]
-OHandler(sem, st, mk, e, a) ==
-    LET k  == KeyOf("ideal", e, a)
+OHandler(sem, st, mk, e, a0) ==
+    LET a  == HandlerArgs(sem.fb, mk, e, a0)     \* what the handler receives (round 4)
+        k  == KeyOf("ideal", e, a)
         ks == RecKids(mk, e)
         ea == EffArgs(sem, a)
         RECURSIVE Go(_, _, _)
